@@ -374,12 +374,27 @@ fn programs() -> Vec<String> {
     .iter()
     .map(|s| s.to_string())
     .collect();
+    // one word that puts more on the stack than the program ever held before: a vector grown with
+    // `push` (never more than two items on the stack while it is built), then unboxed
+    for k in 2..6 {
+        let grow: String = (0..k).map(|i| format!("{} swap push ", i)).collect();
+        v.push(format!("[ ] {}unbox", grow));
+        v.push(format!("7 [ ] {}unbox", grow));
+        v.push(format!(": ub [ ] {}unbox ; ub", grow));
+        v.push(format!("[ ] {}var gv 2 0 do gv unbox loop", grow));
+    }
     for k in 0..5 {
         v.push(format!("[ {} 0 do I loop ] unbox", k));
         v.push((0..k).map(|i| format!("{} var g{}", i, i)).collect::<Vec<_>>().join(" "));
         v.push(format!(": r local n n 0 > if n 1 - r then n ; {} r", k));
     }
     v
+}
+
+fn bump_stat(stats: &Counters, k: &str) {
+    let mut m = BTreeMap::new();
+    m.insert(k.to_string(), 1u64);
+    stats.merge(&m);
 }
 
 pub fn run(cfg: &Cfg) -> i32 {
@@ -670,7 +685,89 @@ pub fn run(cfg: &Cfg) -> i32 {
         nruns.fetch_add(n, Ordering::Relaxed);
     }
 
-    for need in ["insn:refused", "insn:resumed", "stack:refused", "heap:refused", "insn:sufficient"] {
+    // (f) definitions made by the host (plugin loaders, embedders) under a heap limit: every
+    //     headroom 0..=6 cells x every host operation; whatever the outcome, every variable name of
+    //     the dictionary refers to a cell that exists and no two names made in this step share one;
+    //     after the limit is lifted scripts define variables as usual and a name whose definition
+    //     was refused is unknown
+    {
+        let parse_vars = |xs: &Xstate| -> (usize, Vec<(String, usize)>) {
+            let d = xs.verif_dump();
+            let heap_len: usize = dump_get(&d, "heap_len").parse().unwrap_or(0);
+            let mut v = vec![];
+            for part in dump_get(&d, "dict").split(' ') {
+                if let Some((name, rest)) = part.rsplit_once(":var@") {
+                    if let Ok(i) = rest.parse::<usize>() {
+                        v.push((name.to_string(), i));
+                    }
+                }
+            }
+            (heap_len, v)
+        };
+        let host_ops: [(&str, fn(&mut Xstate) -> Xresult); 4] = [
+            ("defvar(\"hv\", 1)", |xs| xs.defvar("hv".into(), Cell::Int(1)).map(|_| ())),
+            ("defvar_anonymous(1)", |xs| xs.defvar_anonymous(Cell::Int(1)).map(|_| ())),
+            ("d2_plugin::load", |xs| xeh::d2_plugin::load(xs)),
+            ("defvar(\"hv\", 1); defvar(\"hw\", 2)", |xs| {
+                xs.defvar("hv".into(), Cell::Int(1))?;
+                xs.defvar("hw".into(), Cell::Int(2)).map(|_| ())
+            }),
+        ];
+        let base = boot();
+        let mut n = 0u64;
+        for headroom in 0..=6usize {
+            for (oname, op) in host_ops.iter() {
+                let mut xs = base.clone();
+                let (h0, vars0) = parse_vars(&xs);
+                xs.set_heap_limit(Some(h0 + headroom)).unwrap();
+                let words0: Vec<String> = xs.word_list().iter().map(|s| s.to_string()).collect();
+                let r = guarded(|| op(&mut xs));
+                n += 1;
+                let mut problem: Option<String> = None;
+                let (h1, vars1) = parse_vars(&xs);
+                if h1 > h0 + headroom {
+                    problem = Some(format!("the heap holds {} cells under limit {}", h1, h0 + headroom));
+                }
+                if let Some((nm, i)) = vars1.iter().find(|(_, i)| *i >= h1) {
+                    problem = Some(format!("variable `{}` refers to cell {} but the heap has {} cells", nm, i, h1));
+                }
+                let new: Vec<&(String, usize)> = vars1.iter().filter(|v| !vars0.contains(v)).collect();
+                for (a, x) in new.iter().enumerate() {
+                    if new[..a].iter().any(|y| y.1 == x.1 && y.0 != x.0) {
+                        problem = Some(format!("two new variables share cell {}", x.1));
+                    }
+                }
+                // lift the limit: scripts work, refused names are unknown
+                let refused = matches!(r, Ok(Err(_)));
+                bump_stat(&stats, if refused { "host-heap:refused" } else { "host-heap:accepted" });
+                xs.set_heap_limit(None).unwrap();
+                let rr = guarded(|| xs.eval("7 var seven-c14 seven-c14"));
+                if !matches!(rr, Ok(Ok(()))) || xs.get_data(0).map(render) != Some("i:7".to_string()) {
+                    problem = Some(format!("after lifting the limit `7 var seven-c14 seven-c14` gives {:?} {:?}", rr.map(|r| res_kind(&r)), xs.get_data(0).map(render)));
+                }
+                let words1: Vec<String> = xs.word_list().iter().map(|s| s.to_string()).collect();
+                for w in words1.iter().filter(|w| !words0.contains(w) && w.as_str() != "seven-c14") {
+                    let mut y = xs.clone();
+                    let before = y.data_depth();
+                    let r2 = guarded(|| y.eval(w));
+                    if let (Ok(Ok(())), Some(c)) = (&r2, y.get_data(0)) {
+                        if y.data_depth() == before + 1 && render(c) == "i:7" {
+                            problem = Some(format!("`{}`, defined by the host operation, now reads the script's new variable (7)", w));
+                        }
+                    }
+                }
+                if let Some(pb) = problem {
+                    rep.report_w("host-definition-under-heap-limit", (headroom * 100 + oname.len()) as u64, || {
+                        jo(vec![("kind", js("host-definition")), ("heap_limit", js(format!("cells in use + {}", headroom))), ("host_operation", js(*oname)), ("result", js(format!("{:?}", r.as_ref().map(|r| res_kind(r))))), ("problem", js(pb.clone()))])
+                    });
+                }
+            }
+        }
+        corp.push(jo(vec![("corpus", js("host definitions under a heap limit")), ("runs", ji(n))]));
+        nruns.fetch_add(n, Ordering::Relaxed);
+    }
+
+    for need in ["insn:refused", "insn:resumed", "stack:refused", "heap:refused", "insn:sufficient", "host-heap:refused", "host-heap:accepted"] {
         if stats.get(need) == 0 && !rep.has_unknown() {
             vacuous(&format!("vacuous: no case of class {}", need));
         }
